@@ -10,47 +10,13 @@
 (* type descriptors:  <<"Short">>, <<"FixedPoint", "Integer", 5>>,         *)
 (*                    <<"PrefixedArray", "VarInt", elemType>>              *)
 (***************************************************************************)
-EXTENDS Wire, TLC, Json
+EXTENDS WireEnc
 
 CONSTANTS Cases,     \* sequence of sets of <<type, value>> (kept apart: TLC set union is quadratic)
           Emit
 
 VARIABLES c, b, alt, phase
 vars == <<c, b, alt, phase>>
-
-Width(t) == CASE t = "Byte" -> 1 [] t = "UnsignedByte" -> 1 [] t = "Short" -> 2
-              [] t = "UnsignedShort" -> 2 [] t = "Integer" -> 4 [] t = "Long" -> 8
-              [] t = "UnsignedLong" -> 8
-Signed(t) == t \in {"Byte", "Short", "Integer", "Long"}
-IntTypes == {"Byte", "UnsignedByte", "Short", "UnsignedShort", "Integer", "Long", "UnsignedLong"}
-
-RECURSIVE Enc(_, _)
-Enc(ty, v) ==
-  LET t == ty[1] IN
-  CASE t \in IntTypes            -> EncInt(Width(t), Signed(t), v)
-    [] t = "Boolean"             -> EncBool(v)
-    [] t = "VarInt"              -> EncVarDigits(v)
-    [] t = "VarLong"             -> EncVarDigits(v)
-    [] t = "Float"               -> EncFloat(32, v)
-    [] t = "Double"              -> EncFloat(64, v)
-    [] t = "String"              -> EncString(v)
-    [] t = "ShortPrefixedByteArray"  -> EncShortPrefixed(v)
-    [] t = "VarIntPrefixedByteArray" -> EncVarIntPrefixed(v)
-    [] t = "TrailingByteArray"   -> EncTrailing(v)
-    [] t = "UUID"                -> v.by          \* v = [by |-> 16 bytes, txt |-> the 8-4-4-4-12 text]
-    [] t = "Angle"               -> AngleModel(v)
-    [] t = "FixedPoint"          -> FixedModel(Width(ty[2]), v[1], v[2])
-    [] t = "PrefixedArray"       ->
-         (IF ty[2] = "VarInt" THEN EncVarNat(Len(v))
-          ELSE EncInt(Width(ty[2]), Signed(ty[2]), IntVal(Len(v))))
-         \o FlattenSeq([i \in 1..Len(v) |-> Enc(ty[3], v[i])])
-
-\* admissible alternative encodings (relations "within one quantum")
-Alt(ty, v) ==
-  CASE ty[1] = "Angle"      -> AngleAllowed(v)
-    [] ty[1] = "FixedPoint" -> FixedAllowed(Width(ty[2]), v[1], v[2])
-    [] OTHER                -> {Enc(ty, v)}
-
 
 \* the exhaustive 16-bit domains are enumerated from intervals (building them as
 \* sets first costs TLC most of a minute)
